@@ -635,6 +635,19 @@ fn main() {
         return;
     }
 
+    // minimised past failures first
+    if let Ok(dir) = std::fs::read_dir("/verif/corpus/C14") {
+        let mut files: Vec<_> = dir.filter_map(|e| e.ok()).map(|e| e.path()).filter(|p| p.extension().map_or(false, |x| x == "json")).collect();
+        files.sort();
+        for f in files {
+            if let Ok(v) = serde_json::from_str::<Value>(&std::fs::read_to_string(&f).unwrap_or_default()) {
+                if v["replay"].is_object() {
+                    run_case(&mut rep, &Case::from_json(&v["replay"]), "corpus");
+                }
+            }
+        }
+    }
+
     let rounds = if args.thorough() { 30_000 } else { 3_000 };
     for i in 0..rounds {
         let c = gen_case(&mut rng, args.thorough());
